@@ -65,13 +65,20 @@ def gen_store_case(seed):
                 e = ('mul', e, ('ref', 'second'))
             op = ['add', s, name, e]
         foreign = [(o, n) for o in range(nstores) if o != s and reg_of[o] == reg_of[s] for n in defined[o] if n not in known[s]]
-        if op[0] == 'add' and foreign and rng.random() < 0.15:
+        if op[0] == 'add' and foreign and rng.random() < 0.15 and not any(n.startswith('store') for n in known[s]):
+            # (not when this store has a user name that itself looks like a registry name: it could be that very string)
             # a definition that mentions a unit of ANOTHER store (sharing the registry) by its registry name, as str(unit)
             # prints it: unknown here, so it must be refused and change nothing
             o, n = rng.choice(foreign)
             qname = rng.choice(['qa', 'qb', 'qc'])
             if qname not in known[s]:
                 ops.append(['add', s, qname, ('div', ('qref', o, n), ('ref', 'second'))])
+        elif op[0] == 'add' and rng.random() < 0.15:
+            # ... or by its PLAIN name, which only another store (a parent, a sibling, a stranger) knows
+            plain = [n for o in range(nstores) if o != s for n in defined[o] if n not in known[s]]
+            pname = rng.choice(['zz_pa', 'zz_pb', 'zz_pc'])
+            if plain and pname not in known[s]:
+                ops.append(['add', s, pname, ('div', ('ref', rng.choice(plain)), ('ref', 'second'))])
         ops.append(op)
         if name not in known[s]:
             known[s].append(name)
@@ -102,6 +109,9 @@ def store_oracle(case, impl):
         k = op[0]
         if k in ('add', 'base', 'new'):
             last_edit = op
+            if k == 'add' and r[0] == 'ok' and op[2] in ('zz_pa', 'zz_pb', 'zz_pc'):
+                bad.append(('store %d accepted a definition of %r in terms of a name that only another store defines: names of one '
+                            'store must be unknown in the other' % (op[1], op[2]), {'edit': op}))
             if k == 'add' and r[0] == 'ok' and 'qref' in repr(op[3]):
                 bad.append(('store %d accepted a definition of %r that mentions a unit of another store by its registry name '
                             '(%s): names of one store must be unknown in the other' % (op[1], op[2], r[1:2] or ''), {'edit': op}))
